@@ -1,9 +1,74 @@
 import QecVerif.Model.Wire
+import QecVerif.Model.Coset
 namespace Qec.Drv
-open Qec Qec.Wire
+open Qec Qec.Wire Qec.Coset
 
-/-- driver ops of property C10 (first protocol token `c10`) -/
+private def showInts (l : List Int) : String := ",".intercalate (l.map toString)
+
+private def dist4? (a b c d : String) : Option (Dist Int) := do
+  pure ⟨← parseInt? a, ← parseInt? b, ← parseInt? c, ← parseInt? d⟩
+
+private def sameLen (m : Nat) (rows : List BVec) : Bool := rows.all fun r => r.length == m
+
+/-- driver ops of property C10 (first protocol token `c10`).  The scalar type is `Int`: the harness sends the
+    numerators of the four probabilities over a common denominator `D` and divides the replies by `D^n`.
+
+    * `cosets S L f aI aX aY aZ`  (L = two rows X̄ / Z̄) → `n0,n1,n2,n3 cls other`: the four coset sums in the
+      decoders' order I, X̄, Ȳ, Z̄, the arg-max index and the largest of the other three;
+    * `ycosets S ly f aI aX aY aZ` → `n0,n1 cls ysize`: Y-only coset sums of `f` and `f ⊕ ly`, arg-max, and the
+      number of Y-only elements of the stabilizer group;
+    * `syndprob S s m aI aX aY aZ` → `n`: Σ over all errors of length m with syndrome s;
+    * `success S m aI aX aY aZ T`  (T = rows `syndrome recovery` pairs flattened: syndrome/recovery/…)
+      → `n`: success probability of the table decoder (recovery `zeros` for syndromes not in T). -/
 def c10 : List String → Option String
+  | ["cosets", sS, sL, sf, a, b, c, d] => do
+      let S ← parseMat? sS
+      let L ← parseMat? sL
+      let f ← parseBits? sf
+      let dist ← dist4? a b c d
+      match L with
+      | [lx, lz] =>
+          if !(sameLen f.length S && sameLen f.length L) || f.length % 2 != 0 then none else
+          let ps := cosetProbs4 dist S lx lz f
+          let cls := argMax ps
+          pure s!"{showInts ps} {cls} {maxOther ps cls}"
+      | _ => none
+  | ["ycosets", sS, sly, sf, a, b, c, d] => do
+      let S ← parseMat? sS
+      let ly ← parseBits? sly
+      let f ← parseBits? sf
+      let dist ← dist4? a b c d
+      if !(sameLen f.length S) || ly.length != f.length || f.length % 2 != 0 then none else
+      let ps := [yCosetProb dist S f, yCosetProb dist S (xorV f ly)]
+      pure s!"{showInts ps} {argMax ps} {yGroupSize f.length S}"
+  | ["ycheck", sS, sly, sf, a, b, c, d] => do
+      -- `1` iff the Y-only coset sums equal the full coset sums for f and f ⊕ ly (expected when pX = pZ = 0)
+      let S ← parseMat? sS
+      let ly ← parseBits? sly
+      let f ← parseBits? sf
+      let dist ← dist4? a b c d
+      if !(sameLen f.length S) || ly.length != f.length || f.length % 2 != 0 then none else
+      pure (showBool (yCosetProb dist S f == cosetProb dist S f
+        && yCosetProb dist S (xorV f ly) == cosetProb dist S (xorV f ly)))
+  | ["syndprob", sS, ss, sm, a, b, c, d] => do
+      let S ← parseMat? sS
+      let s ← parseBits? ss
+      let m ← parseNat? sm
+      let dist ← dist4? a b c d
+      if !(sameLen m S) || s.length != S.length || m % 2 != 0 || m > 20 then none else
+      pure (toString (syndProb dist S m s))
+  | ["success", sS, sm, a, b, c, d, sT] => do
+      let S ← parseMat? sS
+      let m ← parseNat? sm
+      let dist ← dist4? a b c d
+      let T ← parseMat? sT
+      if !(sameLen m S) || m % 2 != 0 || m > 14 || T.length % 2 != 0 then none else
+      let rec pairs : List BVec → List (BVec × BVec)
+        | s :: r :: t => (s, r) :: pairs t
+        | _ => []
+      let tbl := pairs T
+      let dec : BVec → BVec := fun s => ((tbl.find? fun p => p.1 == s).map (·.2)).getD (zeros m)
+      pure (toString (successProb dist S m dec))
   | _ => none
 
 end Qec.Drv
